@@ -889,6 +889,12 @@ class DFA:
                     fake_start[to_else].fallthrough(True).handles_else()
                 chained_dfa.starting_state = fake_start
 
+        # An action that may send the machine elsewhere (a break under an if, a finish, an append that overflows) cannot ride on the transitions that
+        # consume the first byte of what follows: leaving, it would take that byte along, and on any other byte it would not be reached at all.
+        if any(sub.get_target_override_mode() != ActionOverrideMode.NONE for action in chain_actions for sub in action.all_subactions()):
+            sub_states = [self.append_action_step(chain_actions, sub_states)]
+            chain_actions = []
+
         # If the caller wants to chain actions into a DFA which potentially matches the empty string, we have to place the actions onto 
         # transitions going into the sub_states, instead of on transitions coming out of them that we generate. This adds more opportunities
         # for "unable to schedule strict"-type errors, but avoids missing actions in these cases.
